@@ -80,6 +80,8 @@ def plan(tier):
     p.append((S.T2(shared=S.VM1_CHAIN[:2]).variant("/shared=install+customize,ALL-SCHEDULES"), 99, 1))
     if not q:
         p.append((S.T2(shared=S.VM1_CHAIN[:1]).variant("/shared=install,ALL-SCHEDULES"), 99, 4))
+    # every pair of run settings on a setup + leaf selection
+    p += S.settings_pairs(lambda **kw: S.T1(shared=S.VM1_CHAIN[:2], D=(1.0, 3.0), **kw), tier)
     # configuration matrix: worker kinds x reuse scopes x slot bindings (same selection, default schedule and single deviations)
     p += S.config_matrix(S.T2, tier)
     p += [(scn.variant(",lazy"), k, w) for scn, k, w in S.config_matrix(lambda nets, **kw: S.T3(nets, lazy=True, **kw), tier, k_quick=0, k_thorough=1)]
